@@ -113,6 +113,14 @@ def run_task(task, prop, tier, seed, timeout):
     env.update(fl["env"])
     # engines that do not choose the construction thread count per case get a different one per shard
     env["OMP_NUM_THREADS"] = str([4, 3, 7, 2, 5, 12, 1, 16][task.shard % 8])
+    # ... and some shards run in an OpenMP environment that delivers fewer threads than requested (num_threads is only a
+    # request): a thread limit below the chunk count, dynamic adjustment of the team size
+    if task.shard % 8 == 5:
+        env["OMP_THREAD_LIMIT"] = "3"
+    elif task.shard % 8 == 2:
+        env["OMP_THREAD_LIMIT"] = "2"
+    elif task.shard % 8 == 6:
+        env["OMP_DYNAMIC"] = "true"
     env.update(task.run.get("env", {}))
     if task.run["flavour"] in ("tsan", "tsanomp"):
         env["VF_STDERR_MARKERS"] = "1"
